@@ -103,6 +103,9 @@ type Ctx struct {
 	// Nested, when set by the glue, runs a re-entrant parse.
 	Nested     func()
 	NestedRuns int
+	// StatsDigest is filled by the glue after the parse: the caller's
+	// Stats.ChoiceAltCnt rendered canonically.
+	StatsDigest string
 }
 
 // NewCtx makes a context for a plan.
